@@ -9,6 +9,9 @@ single perturbation (kind, property value / removed / added, child removed / dup
 change); symmetric and equal to the reference on all ordered pairs of trees with <= 3 nodes; False (never raising) against
 non-components; deepcopy, pickle (protocols 2..highest) and serialise+parse copies are equal and serialise identically, also for
 calendars holding zoneinfo / pytz / VTIMEZONE-defined zones under both providers.
+Sibling multisets: every multiset of <= 3 (thorough 4) children from 7 that pairwise share kind and/or UID but differ in
+content (summary, RECURRENCE-ID, a nested alarm, missing UID), under 3 parent kinds, at top level and nested: equal in every
+order, unequal to every other multiset of the same size.
 """
 import copy
 import itertools
@@ -355,8 +358,74 @@ def run_zone(case):
             "outcome": "zone-ok" if not any(not f.get("known") for f in fails) else "FAIL"}
 
 
+# ---------------------------------------------------------------- sibling multisets: same kind, shared keys, different content
+def sibling(i):
+    """Seven children that share kind and/or UID pairwise but are all different."""
+    if i == 5:
+        c = Todo()
+    else:
+        c = Event()
+    if i != 4:
+        c.add("uid", "2" if i == 3 else "1")
+    if i == 2:
+        c.add("recurrence-id", datetime(2024, 5, 1, 10, 0, tzinfo=UTC))
+    c.add("summary", "b" if i == 1 else "a")
+    if i == 6:
+        a = Alarm()
+        a.add("action", "DISPLAY")
+        c.add_component(a)
+    return c
+
+
+SIBLINGS = 7
+
+
+def family(parent_kind, idx, nested):
+    p = {"VCALENDAR": Calendar, "VEVENT": Event, "X-COMP": Component}[parent_kind]()
+    if parent_kind == "X-COMP":
+        p.name = "X-COMP"
+    p.add("uid", "parent")
+    for i in idx:
+        p.add_component(sibling(i))
+    if nested:
+        outer = Calendar()
+        outer.add("prodid", "c20")
+        outer.add_component(p)
+        second = Event()
+        second.add("uid", "parent")
+        outer.add_component(second)
+        return outer
+    return p
+
+
+def run_siblings(case):
+    """('sib', parent kind, nested?, multiset A): every order of A is equal to A; every other multiset B of the same size is not."""
+    _, parent_kind, nested, A = case
+    fails = []
+    trans = 0
+    base = family(parent_kind, A, nested)
+    for perm in set(itertools.permutations(A)):
+        other = family(parent_kind, perm, nested)
+        trans += 2
+        r1, r2, r3 = eq(base, other), eq(other, base), (base != other)
+        if r1 is not True or r2 is not True or r3 is not False:
+            fails.append(fail("sibling-order-matters", ("sib", parent_kind, nested, A, perm), (True, True, False), (r1, r2, r3)))
+            break
+    for B in itertools.combinations_with_replacement(range(SIBLINGS), len(A)):
+        if B == A:
+            continue
+        other = family(parent_kind, B[::-1], nested)
+        trans += 2
+        r1, r2 = eq(base, other), eq(other, base)
+        if r1 is not False or r2 is not False:
+            fails.append(fail("different-sibling-multisets-equal", ("sib", parent_kind, nested, A, B), False, (r1, r2)))
+            break
+    return {"state": ("sib", parent_kind, nested, A), "trans": trans, "nontrivial": len(A) >= 2, "fails": fails,
+            "outcome": "sib-ok" if not fails else "FAIL"}
+
+
 def run_case(case):
-    return {"tree": run_tree, "pairs": run_pairs, "zone": run_zone}[case[0]](case)
+    return {"tree": run_tree, "pairs": run_pairs, "zone": run_zone, "sib": run_siblings}[case[0]](case)
 
 
 def replay(case):
@@ -364,6 +433,8 @@ def replay(case):
         return run_pairs(("pairs", case[1], [case[2]]))
     if case[0] == "tree":
         return run_tree(case[:2])
+    if case[0] == "sib":
+        return run_siblings(case[:4])
     return run_case(case)
 
 
@@ -374,7 +445,7 @@ def run(ctx):
                 "comparisons, all permutations of subcomponents (<=4) at every node, property insertion order and name case, "
                 "every single perturbation, deepcopy/pickle(2..5)/parse copies; all ordered pairs of trees with <= 3 nodes "
                 "(742^2) vs the reference multiset equality; zone-carrying calendars (zoneinfo, pytz, dateutil, VTIMEZONE-"
-                "defined) x both providers. non-trivial = tree with >= 2 nodes / every pair.")
+                "defined) x both providers; sibling multisets (<= 3/4 of 7 children sharing kind/UID but differing in content) in every order and against every other multiset. non-trivial = tree with >= 2 nodes / every pair.")
     ctx.bounds = {"max_nodes": n, "kinds": KINDS, "pair_nodes": 3}
     ctx.assumptions += ["pickle protocols 0 and 1 are excluded: third-party tz classes with __slots__ (dateutil) cannot be pickled with them at all",
                         "component names set through the API are upper case (lower-case API names excluded)",
@@ -400,3 +471,13 @@ def run(ctx):
     ctx.explore("trees", gen_trees, run_case)
     ctx.explore("pairs<=3-nodes", gen_pairs, run_case, recheck=False)
     ctx.explore("zone-copies", gen_zone, run_case, jobs=4)
+
+    def gen_sib():
+        kmax = 3 if ctx.quick else 4
+        for parent_kind in ("VCALENDAR", "VEVENT", "X-COMP"):
+            for nested in (False, True):
+                for k in range(1, kmax + 1):
+                    for A in itertools.combinations_with_replacement(range(SIBLINGS), k):
+                        yield ("sib", parent_kind, nested, A)
+
+    ctx.explore("sibling-multisets", gen_sib, run_case)
